@@ -12,7 +12,7 @@ for name, checks in sorted(exp.items()):
         print(f"selftest/mutants/{name}.diff", *checks)
 for meta in sorted(glob.glob('seeded/*/meta.json')):
     m = json.load(open(meta)); d = os.path.dirname(meta)
-    if pat in d:
+    if pat in d and not str(m.get("status", "")).startswith("benign"):
         print(f"{d}/patch.diff", *m.get("checks_expected", [m["property"]]))
 PY
 while read -r patch checks; do
